@@ -300,30 +300,60 @@ func allHarnessNames(eng *symx.Engine) []string {
 
 var harnessNamesCache []string
 
-func runGoTest(dir string, in, out string) (string, error) {
+func runGoTest(dir string, in, out string, race bool) (string, error) {
 	ov, err := writeOverlay(dir, harnessNamesCache)
 	if err != nil {
 		return "", err
 	}
-	return runCmd(repoDir, []string{"VERIF_REPLAY_IN=" + in, "VERIF_REPLAY_OUT=" + out},
-		"go", "test", "-vet=off", "-count=1", "-run", "^TestVerifReplay$", "-overlay", ov, "-timeout", "30m", ".")
+	env := []string{"VERIF_REPLAY_IN=" + in, "VERIF_REPLAY_OUT=" + out}
+	args := []string{"test", "-vet=off", "-count=1", "-run", "^TestVerifReplay$", "-overlay", ov, "-timeout", "30m"}
+	if race {
+		env = append(env, "VERIF_RACE=1", "CGO_ENABLED=1")
+		args = append(args, "-race")
+	}
+	args = append(args, ".")
+	return runCmd(repoDir, env, "go", args...)
+}
+
+// runBatch replays a batch of witnesses natively (one go test process).
+func runBatch(dir, tag string, cases []replayCase, race bool) ([]replayResult, error) {
+	in := filepath.Join(dir, tag+"_in.json")
+	out := filepath.Join(dir, tag+"_out.json")
+	b, _ := json.Marshal(cases)
+	if err := os.WriteFile(in, b, 0o644); err != nil {
+		return nil, err
+	}
+	outp, err := runGoTest(dir, in, out, race)
+	ob, rerr := os.ReadFile(out)
+	if rerr != nil {
+		return nil, fmt.Errorf("native replay run failed: %v\n%s", err, outp)
+	}
+	if err != nil && !race {
+		return nil, fmt.Errorf("native replay run failed: %v\n%s", err, outp)
+	}
+	var rs []replayResult
+	if err := json.Unmarshal(ob, &rs); err != nil {
+		return nil, err
+	}
+	return rs, nil
 }
 
 func nativeReplay(results []*symx.CaseResult) (*replayReport, error) {
 	start := time.Now()
 	dir := workDir()
-	var cases []replayCase
 	type ref struct {
 		res  *symx.CaseResult
 		viol *symx.Violation // nil for a path witness
 	}
-	var refs [][]ref
+	var cases, raceCases []replayCase
+	var refs, raceRefs [][]ref
 	for _, r := range results {
 		if r == nil {
 			continue
 		}
 		rc := replayCase{Harness: r.Spec.Harness, Params: r.Spec.Params}
-		var rr []ref
+		rrc := rc
+		var rr, rrr []ref
 		for i := range r.Witnesses {
 			if r.Witnesses[i].Outcome != "ok" {
 				continue // violating paths are replayed from the violation list
@@ -332,6 +362,12 @@ func nativeReplay(results []*symx.CaseResult) (*replayReport, error) {
 			rr = append(rr, ref{res: r})
 		}
 		for _, v := range r.Violations {
+			switch v.Kind {
+			case "write", "race":
+				rrc.Witnesses = append(rrc.Witnesses, symx.Witness{Vector: v.Vector, Outcome: "race"})
+				rrr = append(rrr, ref{res: r, viol: v})
+				continue
+			}
 			oc := v.Kind + ":" + v.ID
 			if v.Kind == "panic" {
 				oc = "panic"
@@ -343,26 +379,41 @@ func nativeReplay(results []*symx.CaseResult) (*replayReport, error) {
 			cases = append(cases, rc)
 			refs = append(refs, rr)
 		}
+		if len(rrc.Witnesses) > 0 {
+			raceCases = append(raceCases, rrc)
+			raceRefs = append(raceRefs, rrr)
+		}
 	}
 	rep := &replayReport{}
+	if len(raceCases) > 0 {
+		rs, err := runBatch(dir, "race", raceCases, true)
+		if err != nil {
+			return nil, err
+		}
+		// the race detector reports each distinct pair of stacks once per
+		// process: a site confirmed for one witness counts for the others
+		siteConfirmed := map[string]bool{}
+		for _, r := range rs {
+			if r.Outcome == "race" {
+				siteConfirmed[raceRefs[r.Case][r.Witness].viol.ID] = true
+			}
+		}
+		for _, r := range rs {
+			rf := raceRefs[r.Case][r.Witness]
+			w := raceCases[r.Case].Witnesses[r.Witness]
+			if r.Outcome == "race" || (r.Outcome == "ok" && siteConfirmed[rf.viol.ID]) {
+				rep.confirmed = append(rep.confirmed, confirmedViolation{Spec: rf.res.Spec, V: rf.viol, Native: "race detector report", Detail: r.Detail})
+			} else {
+				rep.unconfirmed = append(rep.unconfirmed, fmt.Sprintf("%s %s/%s: engine saw a write during a query, the race detector run says %s (vector %v)", rf.res.Spec, rf.viol.Case, rf.viol.ID, r.Outcome, w.Vector))
+			}
+		}
+	}
 	if len(cases) == 0 {
+		rep.wall = time.Since(start)
 		return rep, nil
 	}
-	in := filepath.Join(dir, "replay_in.json")
-	out := filepath.Join(dir, "replay_out.json")
-	b, _ := json.Marshal(cases)
-	if err := os.WriteFile(in, b, 0o644); err != nil {
-		return nil, err
-	}
-	if outp, err := runGoTest(dir, in, out); err != nil {
-		return nil, fmt.Errorf("native replay run failed: %v\n%s", err, outp)
-	}
-	ob, err := os.ReadFile(out)
+	rs, err := runBatch(dir, "replay", cases, false)
 	if err != nil {
-		return nil, err
-	}
-	var rs []replayResult
-	if err := json.Unmarshal(ob, &rs); err != nil {
 		return nil, err
 	}
 	for _, r := range rs {
@@ -467,15 +518,11 @@ func cmdReplay(args []string) int {
 	in := filepath.Join(dir, "in.json")
 	out := filepath.Join(dir, "out.json")
 	cases := []replayCase{{Harness: rf.Harness, Params: rf.Params, Witnesses: []symx.Witness{{Vector: rf.Vector, Outcome: rf.Expect}}}}
-	jb, _ := json.Marshal(cases)
-	os.WriteFile(in, jb, 0o644)
-	if outp, err := runGoTest(dir, in, out); err != nil {
-		fmt.Println(outp)
+	_, _ = in, out
+	rs, err := runBatch(dir, "single", cases, rf.Expect == "race")
+	if err != nil {
 		fatal(err)
 	}
-	ob, _ := os.ReadFile(out)
-	var rs []replayResult
-	json.Unmarshal(ob, &rs)
 	if len(rs) != 1 {
 		fatal(fmt.Errorf("no replay result"))
 	}
